@@ -689,6 +689,10 @@ fn c18_build(ctx: &Ctx, tier: Tier, seed: u64) -> Vec<Job<'static>> {
         let sizes = [0, 1, seg, 3 * seg + 1];
         let classes = [Content::Rand, Content::ZeroRuns, Content::Zero, Content::Neutral];
         simple_put(&mut sc, true, sizes[(ci / 2) % 4], classes[(ci / 8) % 4].clone(), rng.next_u64());
+        // "the true outcome" includes the filestore responses: every third Put carries a request
+        if ci % 3 == 0 {
+            sc.puts[0].reqs = vec![Req { action: 0, first: "made_by_request.txt".into(), second: String::new() }];
+        }
         ff.push(sc.clone());
         let prof = gen::profile(&sc, &root, 0, 1);
         let sites = crate::sweep::sites(&prof, 0, 1, false);
